@@ -1262,8 +1262,23 @@ func (t *tracker) observe(before, after *Dump) {
 			for _, x := range l.Services {
 				if x == "*" {
 					t.flags["wildcard-gateway"] = true
+					t.flags["ingress-wildcard-gateway"] = true
 				}
 			}
+		}
+	}
+	// a proxy destination that is also the NAME of an instance of a non-typical kind (e.g. a proxy named
+	// like its destination): the registration path of a terminating wildcard counts that instance as a
+	// "non-connect instance" of the destination, the config-write path only looks at typical instances
+	dests := map[string]bool{}
+	for i := range after.Services {
+		if after.Services[i].Kind == "connect-proxy" {
+			dests[after.Services[i].Dest] = true
+		}
+	}
+	for i := range after.Services {
+		if r := &after.Services[i]; r.Kind != "" && !r.Native && dests[r.Name] {
+			t.flags["non-typical-instance-named-like-destination"] = true
 		}
 	}
 	// a service associated with gateways by more than one row (two gateways, or two listeners)
@@ -1377,13 +1392,13 @@ func (t *tracker) cause(f *OracleFail) string {
 		if f.Sub == "destination-extra" && t.flags["destination-dropped-by-update"] {
 			return "destination-dropped-by-update"
 		}
-		if f.Sub == "extra" && (t.flags["instance-redefined"] || t.flags["name-shared-across-kinds"]) {
-			return "instance-redefined-or-name-shared-across-kinds"
+		// a name shared by instances of several kinds is fine by itself (since /repo 0bb54ea)
+		if f.Sub == "extra" && t.flags["instance-redefined"] {
+			return "instance-redefined"
 		}
 	case "usage":
-		if f.Sub == "billable-services" && t.flags["consul-renamed"] {
-			return "instance-renamed-to-or-from-consul"
-		}
+		// no excluded class (since /repo 10e7cca a rename to or from "consul" is counted correctly)
+		return ""
 	case "vip-advertised":
 		// no excluded class: since /repo 8e1bd1c the advertised address of every instance (sidecar
 		// proxies included) must be its service's assignment
@@ -1402,14 +1417,19 @@ func (t *tracker) cause(f *OracleFail) string {
 		if strings.HasPrefix(f.Sub, "api-") {
 			return ""
 		}
-		if t.flags["wildcard-gateway"] {
-			return "wildcard-gateway"
+		// still excluded: an INGRESS gateway with a wildcard, or any wildcard next to a non-typical instance named
+		// like a proxy destination (both: order of writes), an instance redefined
+		// while some gateway has a wildcard (the old name's association stays), a destination dropped by
+		// an update.  A service listed next to a wildcard, or linked by two gateways, is fine by itself
+		// (since /repo a882280, 948377c).
+		if t.flags["ingress-wildcard-gateway"] || (t.flags["wildcard-gateway"] && t.flags["non-typical-instance-named-like-destination"]) {
+			return "wildcard-order"
+		}
+		if t.flags["wildcard-gateway"] && t.flags["instance-redefined"] {
+			return "instance-redefined"
 		}
 		if t.flags["destination-dropped-by-update"] {
 			return "destination-dropped-by-update"
-		}
-		if t.flags["service-in-two-gateway-rows"] {
-			return "service-in-two-gateway-rows"
 		}
 	}
 	return ""
@@ -1898,6 +1918,24 @@ func corpus() map[string][]Cmd {
 			reg(4, "n1", plain("s1", "web")),
 			{Kind: "deregister", Idx: 5, Node: "n1", SvcID: "s1"},
 		},
+		// regression (948377c): two gateways list ext, then ext becomes a destination
+		"gateway-service-in-two-rows": {
+			{Kind: "conf_set", Idx: 3, Conf: &Conf{Kind: structs.TerminatingGateway, Name: "tgw", Services: []string{"ext"}}},
+			{Kind: "conf_set", Idx: 4, Conf: &Conf{Kind: structs.TerminatingGateway, Name: "tgw2", Services: []string{"ext"}}},
+			{Kind: "conf_set", Idx: 5, Conf: &Conf{Kind: structs.ServiceDefaults, Name: "ext", Dest: true}},
+		},
+		// still failing: a sidecar proxy registered before a wildcard ingress entry gets no association
+		"gateway-ingress-wildcard-order": {
+			{Kind: "conf_set", Idx: 1, Conf: &Conf{Kind: structs.ProxyDefaults, Name: "global"}},
+			reg(3, "n1", proxy("s1", "db-proxy", "db")),
+			{Kind: "conf_set", Idx: 4, Conf: &Conf{Kind: structs.IngressGateway, Name: "igw", Listeners: []Listener{{Port: 8080, Services: []string{"*"}}}}},
+		},
+		// still failing: a service-defaults entry loses its destination by an update
+		"kindnames-destination-dropped": {
+			{Kind: "conf_set", Idx: 3, Conf: &Conf{Kind: structs.ServiceDefaults, Name: "ext", Dest: true}},
+			{Kind: "conf_set", Idx: 4, Conf: &Conf{Kind: structs.ServiceDefaults, Name: "ext"}},
+		},
+		// regression (10e7cca) for the usage count; the rename itself still leaves a kind-service-name behind
 		"usage-instance-renamed-to-consul": {
 			reg(3, "n1", plain("s1", "web")),
 			reg(4, "n1", proxy("s2", "p", "web")),
